@@ -31,6 +31,12 @@ ASSUME \A nm \in NameU : \A sp \in Spellings : SameName(nm, Spell(nm, sp)) /\ FK
 
 \* (the quick tier drops two of the lengths and one method; VERIF_TIER is set by vcheck)
 QuickTier == "VERIF_TIER" \in DOMAIN IOEnv /\ IOEnv.VERIF_TIER = "quick"
+\* table compression (constant-level): whatever the codec achieves, the reader never gets the table back; it is
+\* dropped when the codec shrank it by two bytes or more and parsed one byte off otherwise
+ASSUME \A n \in {20, 100, 1000} : \A c \in {1, n \div 2, n - 2, n - 1, n, n + 5} :
+          /\ DevTableCompression(n, c)
+          /\ (TableOutcome(n, c) = "misaligned") <=> TableMisaligned(n, c)
+          /\ (TableOutcome(n, c) = "ignored") <=> c < n - 2
 Small == SectorSize = 4
 MCLens == IF Small THEN (IF QuickTier THEN {0, 3, 4, 5, 9, 13} ELSE {0, 1, 3, 4, 5, 8, 9, 13}) ELSE {SectorSize, SectorSize + 1, 2 * SectorSize + 200}
 MCMethods == {0, ZLIB, PKWARE, ADPCM_STEREO, ADPCM_STEREO + BZIP2} \cup (IF QuickTier THEN {} ELSE {SPARSE})
